@@ -278,7 +278,7 @@ def record_ranges(shard, seed):
 
 
 def plan(tier, seed):
-    per = 450 if tier == "quick" else 20000
+    per = 450 if tier == "quick" else 60000
     combos = [(b, p) for b in ("numpy", "jax", "pytorch", "tensorflow") for p in ("64b", "32b")]
     shards = []
     for i, (b, p) in enumerate(combos):
